@@ -422,14 +422,36 @@ def run(ctx: Ctx):
                     writes.append((i, st, c, call))
         cleanup_calls = [(i, st) for i, st, c in order if not isinstance(st, (ast.For, ast.If, ast.Try, ast.With, ast.While))
                          for call in calls_in(st) if (dotted(call.func) or "").split(".")[-1] == "cleanup" and not c]
+        bindings = {}
+        name_fn = fn
         if not writes:
-            ctx.fail("write-discipline", f"{plugin}:writes", "no write call found in the plugin entry point "
-                     "(writes moved elsewhere; not followed)", rel, fn.lineno)
-            continue
+            # the write loop was moved into a helper of the same module: followed one level, the helper's parameters
+            # standing for the argument expressions of the call
+            for i0, st0, c0 in order:
+                if isinstance(st0, (ast.For, ast.If, ast.Try, ast.With, ast.While)):
+                    continue
+                for call0 in calls_in(st0):
+                    h = m.functions.get(dotted(call0.func) or "")
+                    if h is None or h is fn:
+                        continue
+                    for j, sth, ch in statement_order(h):
+                        if isinstance(sth, (ast.For, ast.If, ast.Try, ast.With, ast.While)):
+                            continue
+                        for callh in calls_in(sth):
+                            if isinstance(callh.func, ast.Attribute) and callh.func.attr in WRITE_ATTRS:
+                                writes.append((i0, sth, tuple(c0) + tuple(ch), callh))
+                                name_fn = h
+                                bindings = {a.arg: v for a, v in zip(h.args.args, call0.args)}
+                                bindings.update({k.arg: k.value for k in call0.keywords if k.arg})
+        if not writes:
+            raise AnalysisError(f"{rel}: no write call found in the plugin entry point or in a helper it calls directly "
+                                "(writes moved elsewhere; not followed)")
         for i, st, c, call in writes:
             # destination: (<dir> / NAME).write_text(...)
             dest = call.func.value
             loops = [s for s, _ in c if isinstance(s, ast.For)]
+            if isinstance(dest, ast.Name) and dest.id in bindings:
+                dest = bindings[dest.id]          # the helper's path parameter: the caller's argument expression
             if isinstance(dest, ast.Name):
                 # `file = output / file_name` earlier in the same block
                 for blk_owner, _ in reversed(c):
@@ -455,10 +477,12 @@ def run(ctx: Ctx):
                                 if isinstance(s2.value, ast.JoinedStr) and isinstance(s2.value.values[-1], ast.Constant):
                                     suffix = str(s2.value.values[-1].value)
                 if src_name is not None:
-                    const_names, suffix2 = produced_keys(idx, m, fn, src_name)
+                    const_names, suffix2 = produced_keys(idx, m, name_fn, src_name, bindings)
                     suffix = suffix or suffix2
             elif name_expr is not None and isinstance(name_expr, ast.Constant):
                 const_names = [name_expr.value]
+            elif name_expr is not None and _template_tail(name_expr) is not None:
+                suffix = _template_tail(name_expr)        # f"{name}.cs" / "{}.cs".format(name) / "%s.cs" % name
             elif name_expr is not None and isinstance(name_expr, ast.Attribute) and name_expr.attr == "name":
                 # copy of a packaged file under its own name (model independent)
                 const_names = ["<packaged file name>"]
@@ -502,7 +526,24 @@ def run(ctx: Ctx):
     ctx.extra["plugins"] = [e[0] for e in entries]
 
 
-def produced_keys(idx: Index, m: Module, fn, iter_expr):
+def _template_tail(e):
+    """constant text after the last placeholder of a string template expression, or None"""
+    import re as _re
+    if isinstance(e, ast.JoinedStr):
+        return str(e.values[-1].value) if e.values and isinstance(e.values[-1], ast.Constant) else None
+    if isinstance(e, ast.Call) and isinstance(e.func, ast.Attribute) and e.func.attr == "format" \
+            and isinstance(e.func.value, ast.Constant) and isinstance(e.func.value.value, str):
+        parts = _re.split(r"\{[^{}]*\}", e.func.value.value)
+        return parts[-1] if len(parts) > 1 and parts[-1] else None
+    if isinstance(e, ast.BinOp) and isinstance(e.op, ast.Mod) and isinstance(e.left, ast.Constant) and isinstance(e.left.value, str):
+        parts = _re.split(r"%[-#0 +]*\d*(?:\.\d+)?[sdrfxi]", e.left.value)
+        return parts[-1] if len(parts) > 1 and parts[-1] else None
+    if isinstance(e, ast.BinOp) and isinstance(e.op, ast.Add) and isinstance(e.right, ast.Constant) and isinstance(e.right.value, str):
+        return e.right.value
+    return None
+
+
+def produced_keys(idx: Index, m: Module, fn, iter_expr, bindings=None):
     """for K in <iter_expr>: what are the keys?  -> (list of constant names | None, common suffix | None)"""
     name = dotted(iter_expr)
     call = None
@@ -518,6 +559,8 @@ def produced_keys(idx: Index, m: Module, fn, iter_expr):
                 call = st.value
             if isinstance(st, ast.AnnAssign) and dotted(st.target) == name and isinstance(st.value, ast.Call):
                 call = st.value
+    if call is None and name and bindings and isinstance(bindings.get(name), ast.Call):
+        call = bindings[name]          # the helper's parameter stands for the caller's argument expression
     if call is None:
         return None, None
     callee = call.func.attr if isinstance(call.func, ast.Attribute) else (dotted(call.func) or "")
@@ -564,6 +607,24 @@ def produced_keys(idx: Index, m: Module, fn, iter_expr):
                     return e.value
                 if isinstance(e, ast.BinOp) and isinstance(e.op, ast.Add):
                     return str_suffix(e.right, fx, depth + 1)
+                # "<template>".format(...) / "<template>" % (...): the constant text after the last placeholder
+                tmpl = None
+                if isinstance(e, ast.Call) and isinstance(e.func, ast.Attribute) and e.func.attr == "format":
+                    tmpl, kind_ = e.func.value, "format"
+                elif isinstance(e, ast.BinOp) and isinstance(e.op, ast.Mod):
+                    tmpl, kind_ = e.left, "percent"
+                if tmpl is not None:
+                    if isinstance(tmpl, ast.Name):
+                        for st_ in ast.walk(m2.tree):
+                            if isinstance(st_, (ast.Assign, ast.AnnAssign)) and isinstance(getattr(st_, "value", None), ast.Constant):
+                                tg_ = st_.targets if isinstance(st_, ast.Assign) else [st_.target]
+                                if any(isinstance(t_, ast.Name) and t_.id == tmpl.id for t_ in tg_):
+                                    tmpl = st_.value
+                    if isinstance(tmpl, ast.Constant) and isinstance(tmpl.value, str):
+                        import re as _re
+                        parts = _re.split(r"\{[^{}]*\}" if kind_ == "format" else r"%[-#0 +]*\d*(?:\.\d+)?[sdrfxi]", tmpl.value)
+                        return parts[-1] if len(parts) > 1 and parts[-1] else None
+                    return None
                 if isinstance(e, ast.NamedExpr):
                     return str_suffix(e.value, fx, depth + 1)
                 if isinstance(e, ast.Name):
